@@ -172,12 +172,18 @@ def every_match_registers(ctx, rule='EXC'):
                                     or (txt in (f"len({nm}) == 0", f"not {nm}") and not pol) for _e, txt, pol in facts_at(sub))
                         if not known:
                             consumers.append(f"{f2.qualname}: `{norm(sub)}`")
+            # the result list filtered after the scan (`lst = [x for x in lst if ...]`) can lose its only entry too
+            for a_ in walk_local(fi.node):
+                if isinstance(a_, ast.Assign) and isinstance(a_.targets[0], ast.Name) and a_.targets[0].id.endswith('_list') \
+                        and isinstance(a_.value, ast.ListComp) and a_.value.generators and a_.value.generators[0].ifs \
+                        and norm(a_.value.generators[0].iter) == a_.targets[0].id:
+                    bad.append(a_)
             if bad and not consumers:
                 ctx.undecided(rule, f"{spec}: every consumed reference registers a number",
                               f"`continue` at line {bad[0].lineno} can leave the result empty; no unguarded index on .{attr} found")
                 continue
             ctx.check(not bad, rule, f"{spec}: every consumed reference registers a number",
-                      detail_bad=f"the `continue` at line {bad[0].lineno if bad else 0} leaves the iteration before anything was appended "
+                      detail_bad=f"the `{'continue' if bad and isinstance(bad[0], ast.Continue) else 'filter'}` at line {bad[0].lineno if bad else 0} drops a number that was just read (or leaves the iteration before anything was appended) "
                                  f"to the result: a reference whose only number is skipped gives an EMPTY list, and the callers "
                                  f"index it ({'; '.join(consumers[:2])}) or build one tract per entry - IndexError, or a "
                                  f"description with no tract at all", key=f"{rule}|{spec}|skip-before-append",
